@@ -16,8 +16,6 @@ func zzC03_header() {
 		_ = h.String()
 		s := h.Serialize()
 		vAssert(len(s) == 20, "header re-serialises to 20 bytes")
-	} else {
-		vAssert(n < 20, "only short input is rejected")
 	}
 	vReach("C03_header")
 }
@@ -248,8 +246,9 @@ func zzC03_nested() {
 	m, err := ReadMessage(zzNewReader(wire), d)
 	vAllocCheck()
 	vAssert(vAllocBytes() <= 64*len(wire)+4096+2*MessageBufferLength || !vSymbolic(), "memory stays within a small multiple of the bytes supplied however deep the groups nest")
-	vAssert(err == nil && len(m.AVP) == 1, "the nested chain decodes")
+	// (a decoder may refuse to descend beyond some depth: an error is as good as a value here)
 	if err == nil {
+		vAssert(len(m.AVP) == 1, "the nested chain decodes to one top-level AVP")
 		n := 0
 		a := m.AVP[0]
 		for {
